@@ -41,6 +41,30 @@ def verify_variant(contract, variant_name, timeout_ms=10000, registry=None):
     except Exception:  # checker crash
         status = "error"
         message = traceback.format_exc()
+    refuted = []
+    if status == "unsupported" and "needs an invariant" in message and not getattr(contract, "no_refute", False):
+        # The code left the verified subset through a loop that has no invariant (typically: the function was edited).
+        # Bounded refutation: explore executions with at most K iterations per such loop. Obligations that fail there fail for
+        # real inputs (their counter-models are replayed natively); nothing is counted as proved in this mode.
+        sh2 = Shared(contract.key, variant_name, contract.timeout_ms or timeout_ms)
+        sh2.refute_bound = 3
+        worklist = [[]]
+        try:
+            while worklist and sh2.paths < 400:
+                prefix = worklist.pop()
+                sh2.paths += 1
+                eng = Interp(sh2, contract, registry, prefix)
+                run_path(eng, contract, types, src)
+                worklist.extend(eng.pending)
+        except (Unsupported, RecursionError) as e_:
+            message += " | bounded refutation stopped: %s" % (str(e_)[:200],)
+        except Exception:
+            message += " | bounded refutation crashed: %s" % traceback.format_exc()[-400:]
+        for o in sh2.obligations:
+            if o.status == "sat" and o.kind not in ("model_limit",):
+                o.label = o.label + " (bounded refutation, <= 3 loop iterations)"
+                refuted.append(o)
+        sh.obligations.extend(refuted)
     if status == "ok" and feasible_exits == 0:
         status = "error"
         message = "vacuous: no feasible exit (contradictory precondition or path conditions)"
@@ -97,6 +121,7 @@ def run_path(eng, contract, types, src):
                 if r == "unsat":
                     raise RuntimeError("vacuous: requires of %s is unsatisfiable" % contract.key)
             eng.env0 = eng.clause_env(env)
+            eng.alloc0 = eng.alloc_term()
             eng.heap0 = dict(eng.heap)
             eng.lists0 = eng.snapshot_lists()
             outcome = None
@@ -153,7 +178,16 @@ def post_state(eng, contract, src, outcome):
             frame_obligations(eng, contract, src)
             for i, cl in enumerate(contract.ensures):
                 # earlier postconditions serve as lemmas for later ones (each is proved before it is assumed)
-                eng.prove(eng.eval_clause(cl), "ensures", "ensures[%d]" % i, src.first_line, assume_after=True)
+                is_lemma = cl.startswith("lemma:")
+                if is_lemma and getattr(sh, "refute_bound", 0):
+                    continue       # lemmas are proof steps about the current representation, not part of the property
+                try:
+                    goal = eng.eval_clause(cl)
+                except Unsupported:
+                    if getattr(sh, "refute_bound", 0):
+                        continue   # proof-only clause (ghost terms) cannot be evaluated in bounded refutation mode
+                    raise
+                eng.prove(goal, "lemma" if is_lemma else "ensures", "ensures[%d]" % i, src.first_line, assume_after=not getattr(sh, "refute_bound", 0))
             return 1
         else:
             e = outcome[1]
@@ -231,6 +265,7 @@ def frame_obligations(eng, contract, src):
         if field in mods:
             continue
         r = z3.Int(eng.fresh_name("fr"))
+        fresh_obj = r >= eng.alloc0     # objects allocated by this call are not part of the caller's frame
         if key.startswith("map$"):
             k = z3.Int(eng.fresh_name("fk"))
             mcls_cells = [z3.And(r == m.t, k == kk) for (m, kk) in cells if key.startswith("map$%s#" % m.cls.tag)]
@@ -246,9 +281,9 @@ def frame_obligations(eng, contract, src):
                         o = z3.Int(eng.fresh_name("fo"))
                         ghost_maps.append(z3.Exists([o], z3.Select(garr, o) == r))
             same = z3.Select(z3.Select(arr, r), k) == z3.Select(z3.Select(init, r), k)
-            goal = z3.ForAll([r, k], z3.Or(mcls_cells + ghost_maps + [same]))
+            goal = z3.ForAll([r, k], z3.Or(mcls_cells + ghost_maps + [fresh_obj, same]))
         elif field in obj_cells:
-            goal = z3.ForAll([r], z3.Or([r == o for o in obj_cells[field]] + [z3.Select(arr, r) == z3.Select(init, r)]))
+            goal = z3.ForAll([r], z3.Or([r == o for o in obj_cells[field]] + [fresh_obj, z3.Select(arr, r) == z3.Select(init, r)]))
         else:
-            goal = z3.ForAll([r], z3.Select(arr, r) == z3.Select(init, r))
+            goal = z3.ForAll([r], z3.Or(fresh_obj, z3.Select(arr, r) == z3.Select(init, r)))
         eng.prove(goal, "frame", "%s unchanged (not in modifies)" % key, src.first_line, assume_after=False)
